@@ -21,6 +21,7 @@ What is excluded, by name:
   `failed_seek_leaves_stream_false` in C08).
 -/
 import LA.Lemmas.ReadAheadSeekRefine
+import LA.Lemmas.ReadAheadSeekAsFound
 namespace LA.C05
 open LA.RA
 
@@ -416,6 +417,47 @@ example : Inv (openSeekable [[1, 2, 3], [], [4, 5, 6, 7]] (fun _ _ _ => 2) .eof 
     SeeksOk (openSeekable [[1, 2, 3], [], [4, 5, 6, 7]] (fun _ _ _ => 2) .eof [] true).seeks ∧
     targetOf (openSeekable [[1, 2, 3], [], [4, 5, 6, 7]] (fun _ _ _ => 2) .eof [] true) (-5) .end_ = some 2 :=
   ⟨inv_open _ _ _ _ _, cacheOk_open _ _ _ _ _ (by simp), rfl, (by intro a ha; cases ha), (by decide)⟩
+
+/-! ### The code as it was found (three defects, repaired by `fix:` commits) -/
+
+/-- Volumes of 5 and 3 bytes, freshly opened. -/
+def twoVolumes : State := openSeekable [[1, 2, 3, 4, 5], [6, 7, 8]] (fun _ _ _ => 2) .eof [] true
+
+/-- The property `seek_refines` demands of SEEK_SET, for the code as found. -/
+def SeekSetAsFoundRefines : Prop :=
+  ∀ (nodes : List (List Nat)) (blk : Nat → Nat → Nat → Nat) (t : Int), nodes ≠ [] →
+    0 ≤ t → t ≤ (nodes.flatten.length : Int) →
+    (AsFound.seekSet (openSeekable nodes blk .eof [] true) t).1 = t
+
+/-- **Finding (repaired): seeking to the last byte of a volume of a multivolume set failed.**
+Offset 4 of volumes of 5 and 3 bytes lies inside the stream; the code as found answered
+ARCHIVE_FATAL (-30), the repaired code positions the stream there. -/
+theorem seek_set_as_found_fails_at_volume_border :
+    ¬ SeekSetAsFoundRefines ∧ (AsFound.seekSet twoVolumes 4).1 = -30 ∧
+    (RA.seek twoVolumes 4 .set).1 = 4 ∧ remaining (RA.seek twoVolumes 4 .set).2 = [5, 6, 7, 8] := by
+  refine ⟨fun h => ?_, by decide +kernel, by decide +kernel, by decide +kernel⟩
+  have := h [[1, 2, 3, 4, 5], [6, 7, 8]] (fun _ _ _ => 2) 4 (by simp) (by decide) (by decide)
+  revert this
+  decide +kernel
+
+/-- The property demanded of SEEK_END, for the code as found: a target outside the stream is
+refused. -/
+def SeekEndAsFoundRefuses : Prop :=
+  ∀ (nodes : List (List Nat)) (blk : Nat → Nat → Nat → Nat) (off : Int), nodes ≠ [] →
+    (off + (nodes.flatten.length : Int) < 0 ∨ 0 < off) →
+    (AsFound.seekEnd (openSeekable nodes blk .eof [] true) off).1 < 0
+
+/-- **Finding (repaired): SEEK_END to a target outside the stream was not refused.**  Nine bytes
+before the end of the 8-byte stream is position -1: the code as found returned position 4 (the
+target plus the size of the first volume); one byte behind the end it returned position 9.  The
+repaired code refuses both. -/
+theorem seek_end_as_found_lands_outside :
+    ¬ SeekEndAsFoundRefuses ∧ (AsFound.seekEnd twoVolumes (-9)).1 = 4 ∧ (AsFound.seekEnd twoVolumes 1).1 = 9 ∧
+    (RA.seek twoVolumes (-9) .end_).1 = -30 ∧ (RA.seek twoVolumes 1 .end_).1 = -30 := by
+  refine ⟨fun h => ?_, by decide +kernel, by decide +kernel, by decide +kernel, by decide +kernel⟩
+  have := h [[1, 2, 3, 4, 5], [6, 7, 8]] (fun _ _ _ => 2) (-9) (by simp) (by decide)
+  revert this
+  decide +kernel
 
 /-- The window handed out is always a prefix of the unconsumed stream, at least
 `min` long: a parser never sees bytes that are not the archive's. -/
